@@ -1,6 +1,6 @@
 // C15 — SPDE operators, projections and solvers are mutually consistent.
 //
-// 96 % of the cases = one (mesh, Matern/Markov model) pair on which the following relations are evaluated
+// 93 % of the cases = one (mesh, Matern/Markov model) pair on which the following relations are evaluated
 //   (a) matrix-free PrecisionOp (evalDirect x2, addToDest, evalPower(ONE), extractDiag, evalInverse/Chebychev) == assembled
 //       PrecisionOpCs::getQ() applied by OUR OWN product; Q == Lambda P(S) Lambda evaluated by us from S, Lambda, Markov coefficients;
 //       invariants of S (S sqrt(TildeC) = 0, symmetric, PSD); turbo mesh vs its MeshEStandard copy give the same Q
@@ -11,7 +11,8 @@
 //       (tolerance for the iterative mode = the solver's own stopping rule times ||A^-1|| computed here)
 //   (e) every solve returns x with a small residual for the system it claims to solve (own residual): CholeskySparse::solve,
 //       PrecisionOpCs::evalInverse, PrecisionOpMultiConditional(Cs)::evalInverse (1 or 2 structures), SPDEOp / SPDEOpMatrix products
-// 4 % of the cases = krigingSPDENew on a target Db without Z variable (aborts in this build, hence isolated).
+// 4 % of the cases = krigingSPDENew on a target Db without Z variable; 3 % = likelihood of data none of which is in the mesh
+// (both abort in this build, hence isolated).
 // Reference computations: harness/common/c15_util.hpp + ref_linalg.hpp (long double, naive).
 // Keys of diagnosed defects (see the author's report): C15:PrecisionOp::addToDest:destination-overwritten,
 //   C15:SPDEOp::_addToDestImpl:data-term-lost(...), C15:ProjMatrix:turbo:rows-shifted-after-sample-outside-grid,
